@@ -25,7 +25,7 @@ print(c.strip().splitlines()[-3:])
 if not confirmed:
     print('NOT CONFIRMED', pid, suf); sys.exit(1)
 ids = [pid] if os.environ.get('OWN_ONLY') else []
-t = subprocess.run(['/verif/tools/try_patch.sh', patch] + ids, stdout=subprocess.PIPE, stderr=subprocess.STDOUT, text=True).stdout
+t = subprocess.run([os.environ.get('TRY_PATCH', '/verif/tools/try_patch.sh'), patch] + ids, stdout=subprocess.PIPE, stderr=subprocess.STDOUT, text=True).stdout
 print(t)
 caught = [l for l in t.splitlines() if l.startswith('CAUGHT-BY:')]
 caught = caught[0][len('CAUGHT-BY:'):].split() if caught else []
